@@ -53,7 +53,8 @@ def _walk(doc: Any, parts: list[str]) -> Any:
 
 
 def apply_json_patch(doc: Any, ops: list[dict]) -> Any:
-    """RFC 6902 subset: add / remove / replace / test (what kopf emits). Returns a new document."""
+    """RFC 6902: add / remove / replace / test / move / copy (jsonpatch.from_diff emits `move` for list
+    reorderings). Returns a new document."""
     doc = copy.deepcopy(doc)
     for op in ops:
         kind = op.get("op")
@@ -65,6 +66,14 @@ def apply_json_patch(doc: Any, ops: list[dict]) -> Any:
                 raise TestFailed(f"test failed: {op['path']} absent")
             if cur != op.get("value"):
                 raise TestFailed(f"test failed at {op['path']}: {cur!r} != {op.get('value')!r}")
+            continue
+        if kind in ("move", "copy"):
+            # RFC 6902 4.4/4.5: the value at `from` is (removed and) added at `path`.
+            src = parse_pointer(op.get("from", ""))
+            val = copy.deepcopy(_walk(doc, src))
+            if kind == "move":
+                doc = apply_json_patch(doc, [{"op": "remove", "path": op.get("from", "")}])
+            doc = apply_json_patch(doc, [{"op": "add", "path": op.get("path", ""), "value": val}])
             continue
         if not parts:
             if kind in ("add", "replace"):
